@@ -30,10 +30,11 @@ def model(ctx, thorough=False):
             ctx.inconclusive.append("wrong variant %s was not refuted (%s)" % (cfg, res["status"]))
 
 
-def histories(ctx, n, props=None, name="sync"):
+def histories(ctx, n, props=None, name="sync", slave_mode="remote"):
     """n simulated histories of MC_Sync_gen.cfg on two real agents + real rsync; findings of the properties in
     `props` (None = all) are reported, the others only counted."""
-    res = ctx.run_tlc("MC_Sync.tla", "MC_Sync_gen.cfg", workers=1, simulate=n, depth=45, timeout=600, name="syncgen")
+    cfg = "MC_Sync_gen.cfg" if slave_mode == "remote" else "MC_Sync_gen_%s.cfg" % slave_mode
+    res = ctx.run_tlc("MC_Sync.tla", cfg, workers=1, simulate=n, depth=45, timeout=600, name="syncgen-" + slave_mode)
     hs, seen = [], set()
     for h in res["hists"]:
         key = json.dumps(h, sort_keys=True)
@@ -49,7 +50,7 @@ def histories(ctx, n, props=None, name="sync"):
     if not hs:
         ctx.inconclusive.append("Sync generator produced no histories (%s)" % res["status"])
         return
-    inp = {"histories": hs, "passwords": {k: af.PASSWORDS[k] for k in ("p1", "p2")}, "slave_mode": "remote",
+    inp = {"histories": hs, "passwords": {k: af.PASSWORDS[k] for k in ("p1", "p2")}, "slave_mode": slave_mode,
            "seed": int(ctx.seed)}
     inf = os.path.join(ctx.scratch, name + "-in.json")
     json.dump(inp, open(inf, "w"))
@@ -70,10 +71,10 @@ def histories(ctx, n, props=None, name="sync"):
         else:
             other += 1
     c = ctx.coverage
-    c["sync_histories_replayed"] = r["histories"]
-    c["sync_steps"] = r["steps"]
-    c["sync_rsync_runs"] = r["rsync_runs"]
-    c["sync_reloads"] = r["reloads"]
+    c["sync_histories_replayed"] = c.get("sync_histories_replayed", 0) + r["histories"]
+    c["sync_steps"] = c.get("sync_steps", 0) + r["steps"]
+    c["sync_rsync_runs"] = c.get("sync_rsync_runs", 0) + r["rsync_runs"]
+    c["sync_reloads"] = c.get("sync_reloads", 0) + r["reloads"]
     c["sync_quick_check_hazard"] = r.get("quick_check_hazard")
     c["traces_validated_against_impl"] = c.get("traces_validated_against_impl", 0) + r["histories"]
     if other:
